@@ -5,30 +5,40 @@ from harness.lib import sx as SX
 from harness.props import llp_common as L
 
 ID = "C01"
-DISABLED = "work in progress: the model and its correspondence check exist, parse_sound is not proved yet (DESIGN.md section 8, C01)"
 COQ_DIR = "C01"
 EXTRA_COQ_DIRS = ["LLP"]
 RUN_MOD = L.RUN_MOD
 MODEL_TARGETS = ["C01/Run.vo"]
-PROOF_TARGETS = ["C01/Basics.vo", "C01/Lemmas.vo", "C01/LemmasFact.vo", "C01/LemmasTable.vo", "C01/LemmasTop.vo"]
+PROOF_TARGETS = ["C01/Basics.vo", "C01/Lemmas.vo", "C01/LemmasFact.vo", "C01/LemmasTable.vo", "C01/FactList.vo", "C01/FactExp.vo",
+                 "C01/FactProps.vo", "C01/FactAll.vo", "C01/FactSmart1.vo", "C01/FactSmart2.vo", "C01/FactSmart3.vo", "C01/FactSmart4.vo",
+                 "C01/LemmasTop.vo"]
 PROPS = ["C01/Props.v"]
 ALLOWED_AXIOMS = []
 IMPL_TIMEOUT = 20.0
 COQ_SHARD = 40
 RULE = ("random grammars (2-6 non-terminals with permuted names, 2-5 terminals, 1-4 ordered alternatives of length 0-4; "
         "forced shapes: common prefixes, nested common prefixes, an alternative that is a prefix of another, empty "
-        "alternatives, some left recursion), both smart_factorization values; per grammar up to 12 inputs: sampled "
-        "sentences, sentences with one token inserted/deleted/replaced, random token strings; token values differ from "
-        "token names.  Non-trivial = distinct (grammar, inputs) whose constructor succeeds, whose grammar has a common-prefix "
-        "group or an empty alternative, and at least one input parses to a tree.")
+        "alternatives, some left recursion; for half of them additionally an alternative sharing its first symbols with a "
+        "NON-adjacent one (not factorized: several table entries, roll-back after children were collected), a further member "
+        "of a common-prefix group, a proper prefix of a factorized alternative; every 8th grammar has a symbol whose "
+        "alternatives share ever shorter prefixes, 3-6 levels of nested suffix symbols), both smart_factorization values; per grammar "
+        "up to 12 inputs: sampled sentences, sentences with one token inserted/deleted/replaced, random token strings; token "
+        "values differ from token names.  Compared: constructor outcome, is_ambiguous, the tree (names, values) or error class "
+        "of every input, the validator verdict on prods_map/_suffix_symbols, and for every 10th case (thorough: all) prods_map "
+        "and _suffix_symbols themselves.  Non-trivial = distinct (grammar, inputs) whose constructor succeeds, whose grammar has "
+        "a common-prefix group or an empty alternative, and at least one input parses to a tree.")
 TRUSTED_BASE = [
-    "tokenisation is outside this model: the model's parse receives the generator's token list (names, values); "
-    "the implementation tokenises the rendered text itself (tokenizer covered by C04)",
-    "GrammarError checks of _verify_grammar_structure_part1 (unknown symbols etc.) are outside the model; generated grammars never trigger them",
+    "tokenisation is outside this model: the model's parse receives the generator's token list (names, values, $END$ last and "
+    "only there); the implementation tokenises the rendered text itself (tokenizer and skip-token filtering are C04's subject)",
+    "GrammarError checks of _verify_grammar_structure_part1 (unknown symbols etc.) are outside the model; generated grammars "
+    "never trigger them and the theorems do not need them (an unknown symbol only makes parses fail)",
+    "python -O would switch off the constructor's name assertions that the model treats as rejections",
 ]
-ASSUMPTIONS = ["grammars use plain productions (templates are C05's subject)"]
-MODELLED = ("ak/llparser.py: _create_productions (plain), _factorize_productions and helpers, _get_nullables, _calc_first_sets, "
-            "_calc_follow_sets, _make_llone_table, _verify_grammar_structure_part2, the main loop of parse incl. suffix splicing and roll-back")
+ASSUMPTIONS = ["grammars use plain productions (templates are C05's subject); keywords/synonyms only rename tokens before the "
+               "parser sees them (tokenizer, C04)"]
+MODELLED = ("ak/llparser.py: LLParser.__init__ name assertions, _create_productions (plain), _factorize_productions and helpers "
+            "incl. the smart undo and their assertions, _get_nullables, _calc_first_sets, _calc_follow_sets, _make_llone_table, "
+            "_verify_grammar_structure_part2, the main loop of parse incl. suffix splicing and roll-back (coq/LLP/*.v)")
 
 
 def _mutate_for_c01(rng, g):
@@ -62,17 +72,74 @@ def _mutate_for_c01(rng, g):
     return g2
 
 
+def _gen_deep_prefix(rng):
+    """a symbol whose alternatives share ever shorter prefixes (x1..xn y | x1..x(n-1) y' | ... | x1 y''): n levels of nested
+    suffix symbols (S__S00__S00__S00...), with empty / nullable remainders mixed in; one or two further symbols"""
+    n_t = rng.randint(3, 5)
+    terms = list(L.T_NAMES[:n_t])
+    nts = rng.sample(["S", "B", "C", "Q_R", "ZA"], rng.randint(2, 3))
+    top, others = nts[0], nts[1:]
+    prods = {}
+    for o in others:
+        alts = [[rng.choice(terms) for _ in range(rng.randint(1, 2))]]
+        if rng.random() < 0.5:
+            alts.append([])
+        rng.shuffle(alts)
+        prods[o] = alts
+    depth = rng.randint(3, 6)
+    spine = [rng.choice(terms + others) if i else rng.choice(terms) for i in range(depth)]
+    alts = []
+    for d in range(depth, 0, -1):
+        r = rng.random()
+        if r < 0.2:
+            tail = []                                  # a proper prefix of the previous alternative
+        elif r < 0.8:
+            tail = [rng.choice([t for t in terms if d == depth or t != spine[d]] or terms)]
+        else:
+            tail = [rng.choice(others), rng.choice(terms)]
+        alt = spine[:d] + tail
+        if alt not in alts:
+            alts.append(alt)
+        if rng.random() < 0.3:                         # a sibling on the same level
+            alt2 = spine[:d] + [rng.choice(terms), rng.choice(terms)]
+            if alt2 not in alts:
+                alts.append(alt2)
+    if rng.random() < 0.5:
+        alts.append([rng.choice(terms)])
+    prods[top] = alts
+    return {"nts": nts, "terms": terms, "prods": [[nt, [list(a) for a in prods[nt]]] for nt in nts],
+            "start": top, "smart": rng.random() < 0.5}
+
+
 def gen_cases(rng, tier):
     n = 1500 if tier == "thorough" else 220
     cases = []
     for i in range(n):
-        g = L.gen_grammar(rng, allow_leftrec=0.08)
-        if rng.random() < 0.5:
-            g = _mutate_for_c01(rng, g)
+        if i % 8 == 3:
+            g = _gen_deep_prefix(rng)
+        else:
+            g = L.gen_grammar(rng, allow_leftrec=0.08)
+            if rng.random() < 0.5:
+                g = _mutate_for_c01(rng, g)
         c = {"g": g, "inputs": L.gen_inputs(rng, g, 12)}
         if tier == "thorough" or i % 10 == 0:
             c["diag"] = True      # also compare prods_map / _suffix_symbols themselves
         cases.append(c)
+    return cases
+
+
+def search_cases(rng, tier):
+    """failing-input search after a broken proof / correspondence: more grammars of the same distribution"""
+    n = 1200 if tier == "thorough" else 300
+    cases = []
+    for i in range(n):
+        if i % 4 == 1:
+            g = _gen_deep_prefix(rng)
+        else:
+            g = L.gen_grammar(rng, allow_leftrec=0.05)
+            if rng.random() < 0.6:
+                g = _mutate_for_c01(rng, g)
+        cases.append({"g": g, "inputs": L.gen_inputs(rng, g, 12)})
     return cases
 
 
@@ -266,7 +333,27 @@ def shrink_candidates(case):
                 yield {"g": g2, "inputs": case["inputs"]}
 
 
-TECHNIQUE = "Coq proof (stack-machine invariant, induction on fuel) over a hand-written Gallina model of the parser + per-run correspondence (vm_compute vs implementation)"
-LEVEL_TEXT = "in progress"
-LEVEL_NOTE = "in progress"
-DESIGN_REF = "DESIGN.md section 8, C01"
+TECHNIQUE = ("Coq proof over a hand-written Gallina model of the parser (stack-machine invariant + induction on the iteration "
+             "budget for the parse loop; rule induction on the factorization's result and a loop invariant with a multiset "
+             "(Permutation) account of suffix-symbol references for the smart undo; an executable validator proved sound for the "
+             "parse loop and complete for the factorization) + per-run correspondence (vm_compute vs implementation) + an "
+             "independent Python oracle and a Python re-implementation of the validator run on the implementation's prods_map")
+LEVEL_TEXT = ("Full (model level; all user grammars, all token lists, all iteration budgets, both smart_factorization settings). "
+              "parse_sound_constructor: whenever the constructor model build accepts (ug, terminals, smart, start) and p_parse "
+              "returns a tree for tokens body ++ [$END$], the root is the start symbol, every inner node with the names of its "
+              "children is one of the USER's productions of that symbol (childless node = empty production), no suffix (helper) "
+              "symbol names any node or leaf, leaves are named by terminals and inner nodes by non-terminals, and the leaves are "
+              "exactly body (names and values, in order).  It is assembled from: parse_sound / parse_sound_tokens (the loop, for ANY "
+              "table contained in the factorized grammar and any grammar accepted by the validator fact_ok), table_sub (the built "
+              "table is contained in the grammar), factorize_ok (fact_ok accepts the result of _factorize_productions for every "
+              "user grammar, with and without the smart undo: expanding suffix symbols gives back exactly the user's productions "
+              "in order, helper names fresh, suffix symbols only last), build_hyps_ok.  Examples: parse_sound_build_nonvacuous "
+              "(nested common prefixes, nullable symbol, roll-back, both smart values), reserved_name_*_rejected.  Not claimed by "
+              "a theorem, only by the per-run correspondence: that the model is the code (trees, is_ambiguous, prods_map, suffix "
+              "symbols and error classes agree on every generated case; the Python validator is applied to the implementation's "
+              "own prods_map), ProdsTemplate grammars (C05), tokenisation/skip tokens/keywords (C04).")
+LEVEL_NOTE = ("Trusted: Coq kernel + vm_compute; fidelity of the hand model coq/LLP (checked by correspondence on every run, not "
+              "proved); the token list handed to the model equals the implementation's non-skipped tokens; the harness.  Finding "
+              "fixed during this work: reserved '__' names were accepted inside productions and as start symbol (/repo 6e22989), "
+              "regression cases in corpus/C01.")
+DESIGN_REF = "DESIGN.md section 8, C01 and Appendix A"
